@@ -642,6 +642,8 @@ class Exec:
                     return r
             if f.id == 'set' and not e.args and f.id not in st.env:
                 return SetV(z3.K(Val, BoolVal(False)))
+            if f.id == 'bool' and f.id not in st.env and len(e.args) == 1 and not e.keywords:
+                return self.truth(self.ev(e.args[0], st), st)          # bool(x): the truth value of x, as a bool
             if f.id in ('min', 'max') and f.id not in st.env and len(e.args) == 2 and not e.keywords:
                 a_, b_ = self.ev(e.args[0], st), self.ev(e.args[1], st)
                 if all(isinstance(x, (int, z3.ArithRef)) and not isinstance(x, bool) for x in (a_, b_)):
